@@ -375,7 +375,7 @@ impl SliceRange {
         if index >= 0 {
             dim_size as isize - 1 - index
         } else {
-            -index - 1
+            -(index + 1)
         }
     }
 }
